@@ -1043,6 +1043,10 @@ def main(argv=None):
                    'random public calls (+close) on a closed file / a file with a torn or status-c tail / next to an '
                    'active writer; non-trivial = the session issues >= 1 write API',
               assumptions=['arbitrary bit damage inside an index file is excluded (property text); truncations are included',
+                           'fault sequence "fsync of tpc_finish raises": the bytes written to Data.fs since the last successful '
+                           'fsync may be lost while the index file that close() saves afterwards survives (that is what a '
+                           'failed fsync means); both the tail-present and the tail-lost file are reopened with that index',
+                           'read-only storages are opened both directly and through a ZODB.config <filestorage> section',
                            'cleanup() — the test-support call that deletes the database files, not part of '
                            'ZODB.interfaces — is not counted as a public write API',
                            'pickle framing of the index file is idealised as a prefix-free code in the model; every '
